@@ -128,7 +128,7 @@ void check_C10(Src &s, Ctx &ctx) {
     // |t(library) - t(harness)|: rounding of the affine inverse, the conformal inverse is a Newton iteration stopped at a residual of 1e-12 (g' >= 2/pi), budget 1e-9
     std::vector<double> dt((size_t)d);
     for (int j = 0; j < d; j++) { double tmax = std::max(std::fabs(lo[(size_t)j]), std::fabs(hi[(size_t)j])), lin = 0;
-        if (linear) { double xmax = std::max(std::fabs((double)maps::fwd(dom, ta[(size_t)j], tb[(size_t)j], lo[(size_t)j])), std::fabs((double)maps::fwd(dom, ta[(size_t)j], tb[(size_t)j], hi[(size_t)j]))) + pscale[(size_t)j]; lin = 64 * EPS * xmax / std::fabs((double)dxdt[(size_t)j]); }
+        if (linear) { double xmax = std::max(std::fabs((double)maps::fwd(dom, ta[(size_t)j], tb[(size_t)j], lo[(size_t)j])), std::fabs((double)maps::fwd(dom, ta[(size_t)j], tb[(size_t)j], hi[(size_t)j]))) + pscale[(size_t)j]; lin = 256 * EPS * xmax / std::fabs((double)dxdt[(size_t)j]); }
         dt[(size_t)j] = lin + (conformal ? 1e-9 : 0.0) + 16 * EPS * tmax; }
     auto compare_eval = [&](const std::vector<double> &x, const std::vector<double> &t, const char *oracle, const char *what) {
         std::vector<double> yA, yB, S, D; A.evaluate(t, yA); B.evaluate(x, yB); scales_A(A, t, S, D);
